@@ -3,6 +3,8 @@ mod alloc;
 mod error;
 mod guard;
 mod heap;
+#[cfg(vbxq_aelys_lang_verif)]
+mod verif;
 
 pub use error::ManualHeapError;
 pub use guard::ManualHeapGuard;
